@@ -1,6 +1,6 @@
 (* C15 - Subscriber shutdown is clean, idempotent and final.
-   Model: model/C15_Shutdown.v (stepf false = the code as found, stepf true = with
-   pending/C15-fix-onsyncfinished-after-close and pending/C15-fix-close-waits-for-distributor).
+   Model: model/C15_Shutdown.v (stepf false = the code as found, stepf true = with the
+   repairs 91425bb, c96087d and pending/C15-fix-close-waits-for-cleaner).
    `reach fx recv cap s`: s is reachable by ANY label sequence from the initial state of a
    subscriber with/without an announcement receiver and a semaphore of capacity cap (0 = none):
    every point of a sync at which Close can start, any number of Close callers, every order
@@ -83,14 +83,15 @@ Theorem listeners_closed : forall r cap s,
 Proof. exact Proofs.C15_Shutdown.listeners_closed. Qed.
 Print Assumptions listeners_closed.
 
-(* no goroutine the subscriber started is left before its last blocking point: syncs and
-   announce goroutines are past their Done(), the watcher and the distributor have ended,
-   s.closing is closed (so the idle-handler cleaner's exit is enabled: cleaner_ends) *)
+(* no goroutine the subscriber started is left: syncs and announce goroutines are past their
+   Done() (only the deferred semaphore release / unlocks remain), the watcher, the distributor
+   and the idle-handler cleaner have ended *)
 Theorem threads_end : forall r cap s,
   reach true r cap s -> close_returned s = true ->
   (forall t th, threads s t = Some th -> exp_active th = false /\ async_active th = false) /\
   (has_recv s = true -> w_pc s = WEnd) /\
   d_pc (co s) = DDone /\
+  ic_pc s = ICEnd /\
   closing (co s) = true.
 Proof. exact Proofs.C15_Shutdown.threads_end. Qed.
 Print Assumptions threads_end.
